@@ -35,6 +35,7 @@ type modelStore struct {
 	// StreamFault returns the index of the Read at which a Get's stream
 	// fails (-1 = never).
 	StreamFault func(d digest.Digest) int
+	ProtoAC     bool           // objects are ActionResult messages (AC backend)
 	InFlight    map[string]int // op -> calls currently inside
 	MaxInFlight map[string]int
 	seq         func() int
@@ -117,6 +118,10 @@ func (m *modelStore) Get(ctx context.Context, d digest.Digest) buffer.Buffer {
 		err := status.Errorf(codes.NotFound, "%s: object not found", m.Name)
 		m.leave(call, err)
 		return buffer.NewBufferFromError(err)
+	}
+	if m.ProtoAC {
+		m.leave(call, nil)
+		return buffer.NewProtoBufferFromByteSlice(&remoteexecution.ActionResult{}, data, buffer.BackendProvided(func(bool) {}))
 	}
 	errAt := -1
 	if m.StreamFault != nil {
